@@ -335,3 +335,14 @@ func (s *Solver) CheckTactic(tactic string) string {
 	s.Stats.Unknown++
 	return "unknown"
 }
+
+// SetTimeout changes the per-query timeout (z3 only; cvc5 uses its start-up value).
+func (s *Solver) SetTimeout(ms int) {
+	if ms == s.TimeoutMs || ms <= 0 {
+		return
+	}
+	s.TimeoutMs = ms
+	if s.Bin != "cvc5" {
+		s.raw(fmt.Sprintf("(set-option :timeout %d)", ms))
+	}
+}
